@@ -1,4 +1,6 @@
 import FluentProofs.Memo
+import FluentProofs.MemoIntl
+import FluentProofs.MemoConc
 /-!
 # C14 — the formatter memoizer constructs each formatter once per key, under any schedule
 
@@ -90,5 +92,332 @@ theorem C14_lookup_eq_construct (f : L → τ → α → Except ε ι)
     (ops : List (Op σ τ α ι ρ)) (hcb : ∀ op ∈ ops, ∀ i w w', (op.cb i w).1 = (op.cb i w').1) :
     (runOps X lang ops LMemo.empty w₀).1 = ops.map (pureOutcome f lang w₀) :=
   lookup_eq_construct_run X lang LMemo.empty w₀ f hpure w₀ ops hcb (PInv_empty lang f)
+
+/-! ## `IntlMemoizer::get_for_lang`: histories of get_for_lang / new / drop / lookups through handles -/
+
+section Intl
+variable [DecidableEq L]
+
+/-- the state after `IntlMemoizer::default()` and any history -/
+abbrev mafter (ops : List (MOp σ L τ α ι ρ)) : MState σ L τ α ι ε := (mrun X ops (MState.init w₀)).2
+
+/-- after every history: strong count = number of live handles (> 0) for every live allocation, every live
+allocation's memoizer satisfies the per-memoizer invariant (at most once, language, callback instance) for its
+own language, no handle dangles, weak table entries point to allocations of the right language -/
+theorem C14_intl_invariant (ops : List (MOp σ L τ α ι ρ)) : MInv (mafter X w₀ ops) :=
+  MInv_run X ops _ (MInv_init w₀)
+
+/-- no history ever uses a freed memoizer -/
+theorem C14_no_dangling (ops : List (MOp σ L τ α ι ρ)) :
+    MObs.dangling ∉ (mrun X ops (MState.init w₀ : MState σ L τ α ι ε)).1 :=
+  no_dangling_run X ops _ (MInv_init w₀)
+
+/-- at most one successful construction per key in every live memoizer, after every history that mixes
+get_for_lang, drops and lookups through any handles -/
+theorem C14_intl_construct_at_most_once (ops : List (MOp σ L τ α ι ρ)) (oid : Nat) (o : Obj L τ α ι ε)
+    (ho : aget (mafter X w₀ ops).heap oid = some o) (t : τ) (a : α) :
+    (okEvents o.memo t a).length ≤ 1 ∧ ∀ e ∈ o.memo.log, e.lang = o.lang :=
+  ⟨((C14_intl_invariant X w₀ ops).heap_ok oid o ho).2.2.2.at_most_once t a,
+   ((C14_intl_invariant X w₀ ops).heap_ok oid o ho).2.2.2.lang_ok⟩
+
+/-- **shared while in use**: `get_for_lang(l)` hands out handle `h`; whatever happens afterwards (other
+languages, other handles created and dropped, lookups, failures), as long as handle `h` itself has not been
+dropped, `get_for_lang(l)` returns the *same* allocation, with its cache as the lookups left it (only the
+strong count changes) and without touching the table. -/
+theorem C14_shared_while_in_use (pre mid : List (MOp σ L τ α ι ρ)) (l : L) (oid : Nat) :
+    let s₁ := mafter X w₀ pre
+    let h := s₁.handles.length
+    let r := mstep (ρ := ρ) X s₁ (.getForLang l)
+    let s₃ := (mrun X mid r.1).2
+    r.2 = .handle h oid → s₃.handles[h]? = some (some oid) →
+    ∃ o, aget s₃.heap oid = some o ∧
+      mstep (ρ := ρ) X s₃ (.getForLang l) =
+        ({ s₃ with heap := aset s₃.heap oid { o with strong := o.strong + 1 }
+                   handles := s₃.handles ++ [some oid] }, .handle s₃.handles.length oid) := by
+  intro s₁ h r s₃ hobs halive
+  have hi₁ : MInv s₁ := C14_intl_invariant X w₀ pre
+  obtain ⟨oid', o', h1, h2, h3, _, _⟩ := getForLang_result (ρ := ρ) X s₁ l hi₁
+  have e : oid' = oid := by
+    have : MObs.handle (L := L) (τ := τ) (α := α) (ι := ι) (ε := ε) (ρ := ρ) s₁.handles.length oid'
+        = .handle h oid := h1.symm.trans hobs
+    cases this; rfl
+  subst e
+  have hlt : h < r.1.handles.length := by
+    show s₁.handles.length < (mstep (ρ := ρ) X s₁ (.getForLang l)).1.handles.length
+    rw [h2]; simp
+  obtain ⟨ht, o, ho⟩ := shared_while_alive X mid r.1 (MInv_step X s₁ _ hi₁) h oid' l hlt (fun _ => h3) halive
+  exact ⟨o, ho, getForLang_alive X s₃ l oid' o ht ho⟩
+
+/-- **independent across languages**: a memoizer handed out for `l₁` and one handed out later for `l₂ ≠ l₁`
+are never the same allocation, whatever happened in between -/
+theorem C14_independent_across_languages (pre mid : List (MOp σ L τ α ι ρ)) (l₁ l₂ : L) (hne : l₁ ≠ l₂)
+    (h₁ oid₁ h₂ oid₂ : Nat) :
+    let s₁ := mafter X w₀ pre
+    let r₁ := mstep (ρ := ρ) X s₁ (.getForLang l₁)
+    let s₂ := (mrun X mid r₁.1).2
+    let r₂ := mstep (ρ := ρ) X s₂ (.getForLang l₂)
+    r₁.2 = .handle h₁ oid₁ → r₂.2 = .handle h₂ oid₂ → oid₁ ≠ oid₂ := by
+  intro s₁ r₁ s₂ r₂ e₁ e₂ heq
+  have hi₁ : MInv s₁ := C14_intl_invariant X w₀ pre
+  have hi₁' : MInv r₁.1 := MInv_step X s₁ _ hi₁
+  have hi₂ : MInv s₂ := MInv_run X mid _ hi₁'
+  obtain ⟨a₁, o₁, g1, _, _, g4, g5⟩ := getForLang_result (ρ := ρ) X s₁ l₁ hi₁
+  obtain ⟨a₂, o₂, k1, _, _, k4, k5⟩ := getForLang_result (ρ := ρ) X s₂ l₂ hi₂
+  have ea : a₁ = oid₁ := by
+    have : MObs.handle (L := L) (τ := τ) (α := α) (ι := ι) (ε := ε) (ρ := ρ) s₁.handles.length a₁
+        = .handle h₁ oid₁ := g1.symm.trans e₁
+    cases this; rfl
+  have eb : a₂ = oid₂ := by
+    have : MObs.handle (L := L) (τ := τ) (α := α) (ι := ι) (ε := ε) (ρ := ρ) s₂.handles.length a₂
+        = .handle h₂ oid₂ := k1.symm.trans e₂
+    cases this; rfl
+  subst ea; subst eb; subst heq
+  -- the allocation's language is fixed for life
+  have hrun : (mrun X (mid ++ [MOp.getForLang l₂]) r₁.1).2 = r₂.1 := by
+    have : ∀ (a : List (MOp σ L τ α ι ρ)) (op : MOp σ L τ α ι ρ) (s : MState σ L τ α ι ε),
+        (mrun X (a ++ [op]) s).2 = (mstep X (mrun X a s).2 op).1 := by
+      intro a op s
+      induction a generalizing s with
+      | nil => simp [mrun]
+      | cons x xs ih => simp only [List.cons_append, mrun]; exact ih _
+    exact this mid _ _
+  have := lang_stable_run X (mid ++ [MOp.getForLang l₂]) r₁.1 hi₁' a₁ o₁ o₂ g4 (by rw [hrun]; exact k4)
+  rw [g5, k5] at this
+  exact hne this.symm
+
+/-- a lookup through one handle touches nothing but that handle's memoizer (so memoizers of different
+languages, and different memoizers of one language, never disturb each other) -/
+theorem C14_lookup_isolated (s : MState σ L τ α ι ε) (h : Nat) (op : Op σ τ α ι ρ) :
+    (mstep X s (.lookup h op)).1.table = s.table ∧ (mstep X s (.lookup h op)).1.handles = s.handles ∧
+    (mstep X s (.lookup h op)).1.next = s.next ∧
+    ∀ oid, s.handles[h]? = some (some oid) → ∀ oid', oid' ≠ oid →
+      aget (mstep X s (.lookup h op)).1.heap oid' = aget s.heap oid' :=
+  lookup_isolated X s h op
+
+/-- **fresh after the last drop**: when the only live handle of the memoizer registered for `l` is dropped,
+the memoizer is freed, and the next `get_for_lang(l)` returns a brand-new allocation – an id no earlier
+operation ever handed out – with an empty cache and strong count 1. -/
+theorem C14_fresh_after_last_drop (ops : List (MOp σ L τ α ι ρ)) (h oid : Nat) (l : L) :
+    let s := mafter X w₀ ops
+    let s' := (mstep (ρ := ρ) X s (.drop h)).1
+    let r := mstep (ρ := ρ) X s' (.getForLang l)
+    s.handles[h]? = some (some oid) → liveCount s.handles oid = 1 → aget s.table l = some oid →
+    aget s'.heap oid = none ∧
+    r.2 = .handle s'.handles.length s'.next ∧
+    aget r.1.heap s'.next = some { lang := l, strong := 1, memo := LMemo.empty } ∧
+    ∀ h' oid', MObs.handle h' oid' ∈ (mrun X ops (MState.init w₀ : MState σ L τ α ι ε)).1 → oid' < s'.next := by
+  intro s s' r hh hone ht
+  have hi : MInv s := C14_intl_invariant X w₀ ops
+  have hfree := drop_last_frees (ρ := ρ) X s hi h oid hh hone
+  obtain ⟨htab, hnext⟩ := drop_table (ρ := ρ) X s h
+  have hr : r = allocFresh s' l true :=
+    getForLang_fresh X s' l (Or.inr ⟨oid, by rw [htab]; exact ht, hfree⟩)
+  obtain ⟨a1, _, a3, _, _⟩ := allocFresh_spec (ρ := ρ) s' l true
+  refine ⟨hfree, by rw [hr]; exact a1, by rw [hr]; exact a3, ?_⟩
+  intro h' oid' hm
+  rw [hnext]
+  exact handed_out_lt_next X ops _ (MInv_init w₀) h' oid' hm
+
+end Intl
+
+/-! ## the thread-safe memoizer: all schedules -/
+
+/-- the state reached from a cold `concurrent::IntlLangMemoizer::new(lang)` with one thread per program under
+schedule `sched` (any list of thread ids; steps of blocked or finished threads are no-ops) -/
+abbrev cafter (progs : List (List (Op σ τ α ι ρ))) (sched : List Nat) : CState σ L τ α ι ε ρ :=
+  crun X sched (CState.init lang w₀ progs)
+
+theorem C14_conc_lang (progs : List (List (Op σ τ α ι ρ))) (sched : List Nat) :
+    (cafter X lang w₀ progs sched).lang = lang :=
+  (CInv_run X lang w₀ sched _ (CInv_init X lang w₀ progs)).lang_eq
+
+/-- the per-memoizer invariant holds under every schedule -/
+theorem C14_conc_invariant (progs : List (List (Op σ τ α ι ρ))) (sched : List Nat) :
+    LInv lang (cafter X lang w₀ progs sched).memo := by
+  have := LInv_crun X sched (CState.init lang w₀ progs : CState σ L τ α ι ε ρ) (LInv_empty lang)
+  rw [C14_conc_lang X lang w₀ progs sched] at this
+  exact this
+
+/-- **at most once under any schedule**: whatever the interleaving of any number of threads, every key has at
+most one successful construct event; all events carry the memoizer's language; the successful event of a
+cached key is `construct(lang, args) = Ok(cached instance)`. -/
+theorem C14_conc_construct_at_most_once (progs : List (List (Op σ τ α ι ρ))) (sched : List Nat)
+    (t : τ) (a : α) :
+    (okEvents (cafter X lang w₀ progs sched).memo t a).length ≤ 1 ∧
+    (∀ e ∈ (cafter X lang w₀ progs sched).memo.log, e.lang = lang) ∧
+    (match find (cafter X lang w₀ progs sched).memo.map t a with
+      | none => okEvents (cafter X lang w₀ progs sched).memo t a = []
+      | some i => okEvents (cafter X lang w₀ progs sched).memo t a = [⟨lang, t, a, .ok i⟩]) :=
+  ⟨(C14_conc_invariant X lang w₀ progs sched).at_most_once t a,
+   (C14_conc_invariant X lang w₀ progs sched).lang_ok,
+   (C14_conc_invariant X lang w₀ progs sched).cached t a⟩
+
+/-- every callback of every thread ran against the one instance constructed for its key -/
+theorem C14_conc_callback_instance (progs : List (List (Op σ τ α ι ρ))) (sched : List Nat)
+    (t : τ) (a : α) (i : ι) (h : (t, a, i) ∈ (cafter X lang w₀ progs sched).memo.calls) :
+    okEvents (cafter X lang w₀ progs sched).memo t a = [⟨lang, t, a, .ok i⟩] :=
+  (C14_conc_invariant X lang w₀ progs sched).call_instance t a i h
+
+/-- the simulation invariant (also describes states in which the lock is held) after every schedule -/
+theorem C14_conc_simulation (progs : List (List (Op σ τ α ι ρ))) (sched : List Nat) :
+    CInv X lang w₀ (cafter X lang w₀ progs sched) :=
+  CInv_run X lang w₀ sched _ (CInv_init X lang w₀ progs)
+
+/-- **every schedule = the sequential run in lock-acquisition order.**  Let `order` be the (thread, lookup)
+pairs in the order in which the lock was acquired, and `seq` the ordinary sequential run (`runOps`) of those
+lookups on a fresh memoizer.  Whenever the lock is free (in particular when all threads are done) the shared
+memoizer and world are the sequential ones, and the outcomes `outs` of the sequential run, tagged with the
+acquiring thread, are exactly what the threads got: thread `t` holds, in order, the outcomes at `t`'s positions. -/
+theorem C14_conc_eq_sequential (progs : List (List (Op σ τ α ι ρ))) (sched : List Nat) :
+    let s := cafter X lang w₀ progs sched
+    let order := s.acq.reverse
+    let seq := runOps X lang (order.map (·.2)) LMemo.empty w₀
+    s.lock = none →
+    (s.memo, s.world) = seq.2 ∧
+    ∃ outs : List (Nat × Outcome ε ρ),
+      outs.map (·.1) = order.map (·.1) ∧ outs.map (·.2) = seq.1 ∧
+      ∀ t, (s.threads t).results.reverse = (outs.filter fun p => decide (p.1 = t)).map (·.2) := by
+  intro s order seq hl
+  obtain ⟨_, q2, q3⟩ := (C14_conc_simulation X lang w₀ progs sched).quiet hl
+  obtain ⟨e1, e2, e3⟩ := seqAfter_eq_runOps X lang w₀ s.acq
+  refine ⟨q2.trans e1, (seqOuts X lang w₀ s.acq).reverse, e3, e2, ?_⟩
+  intro t
+  rw [q3 t]
+  simp only [outsOf, List.filter_reverse, List.map_reverse]
+  rfl
+
+/-- the acquisition order is an interleaving of the programs: what thread `t` acquired so far (oldest first)
+followed by what it has not started yet is exactly `t`'s program -/
+theorem C14_conc_order_interleaves (progs : List (List (Op σ τ α ι ρ))) (sched : List Nat) (t : Nat) :
+    acqOf t (cafter X lang w₀ progs sched).acq ++ ((cafter X lang w₀ progs sched).threads t).prog =
+      ((CState.init lang w₀ progs : CState σ L τ α ι ε ρ).threads t).prog :=
+  IInv_run X (fun t => ((CState.init lang w₀ progs : CState σ L τ α ι ε ρ).threads t).prog) sched _
+    (by intro t; simp [CState.init, acqOf]) t
+
+/-- **deadlock freedom**: in every reachable state, if some thread still has work, some thread is enabled.
+(One lock, never acquired while held; `construct`/callbacks do not re-enter – see the model header.) -/
+theorem C14_deadlock_free (progs : List (List (Op σ τ α ι ρ))) (sched : List Nat) (t : Nat)
+    (hu : unfinished (cafter X lang w₀ progs sched) t) : ∃ t', enabled (cafter X lang w₀ progs sched) t' :=
+  deadlock_free X lang w₀ _ (C14_conc_simulation X lang w₀ progs sched) t hu
+
+/-- **progress**: a step of an enabled thread lowers that thread's measure (3 per outstanding lookup) by one
+and leaves the other threads alone; a step of a thread that is not enabled changes nothing.  Hence every
+schedule contains at most `3 × (number of lookups)` effective steps. -/
+theorem C14_progress (s : CState σ L τ α ι ε ρ) (t : Nat) :
+    (enabled s t → ((cstep X s t).threads t).measure + 1 = (s.threads t).measure ∧
+      ∀ t', t' ≠ t → (cstep X s t).threads t' = s.threads t') ∧
+    (¬ enabled s t → cstep X s t = s) :=
+  ⟨cstep_enabled X s t, cstep_not_enabled X s t⟩
+
+/-- **completion** (no livelock): after *any* schedule prefix, `3 × (number of lookups)` rounds of round-robin
+finish every thread.  This is the schedule the model driver appends, so the driver always prints a complete run. -/
+theorem C14_completion (progs : List (List (Op σ τ α ι ρ))) (sched : List Nat) (t : Nat) :
+    ¬ unfinished (cafter X lang w₀ progs
+        (sched ++ roundRobin progs.length (3 * (progs.map List.length).sum))) t := by
+  unfold cafter
+  rw [crun_append]
+  have hi := C14_conc_simulation X lang w₀ progs sched
+  have hb : BInv progs.length (cafter X lang w₀ progs sched) :=
+    BInv_run X _ sched _ (BInv_init lang w₀ progs)
+  apply rounds_finish X lang w₀ _ _ _ hi hb
+  have := msum_crun_le X progs.length sched _ (BInv_init (ε := ε) lang w₀ progs)
+  rw [msum_init] at this
+  exact this
+
+/-- in a complete run the lock is free, every thread acquired exactly its program, in program order, and (by
+`C14_conc_eq_sequential`) got the sequential outcomes -/
+theorem C14_conc_complete_run (progs : List (List (Op σ τ α ι ρ))) (sched : List Nat)
+    (hf : ∀ t, ¬ unfinished (cafter X lang w₀ progs sched) t) :
+    (cafter X lang w₀ progs sched).lock = none ∧
+    ∀ t, acqOf t (cafter X lang w₀ progs sched).acq =
+      ((CState.init lang w₀ progs : CState σ L τ α ι ε ρ).threads t).prog := by
+  refine ⟨lock_free_of_finished X lang w₀ _ (C14_conc_simulation X lang w₀ progs sched) hf, ?_⟩
+  intro t
+  have h1 := C14_conc_order_interleaves X lang w₀ progs sched t
+  have h2 := hf t
+  have hidle : ((cafter X lang w₀ progs sched).threads t).prog = [] := by
+    unfold unfinished at h2
+    cases hpc : ((cafter X lang w₀ progs sched).threads t).pc with
+    | idle => rw [hpc] at h2; exact Classical.byContradiction fun hne => h2 hne
+    | locked op => rw [hpc] at h2; exact absurd trivial h2
+    | done r => rw [hpc] at h2; exact absurd trivial h2
+  rw [hidle, List.append_nil] at h1
+  exact h1
+
+/-! ## non-vacuity witnesses
+
+Concrete instances of everything the theorems quantify over.  `decide` on these literals is a *test* (it
+evaluates the executable model in the kernel); the property itself is the theorems above. -/
+namespace Ex
+
+/-- world = number of `construct` calls so far; args 7 always fail, args 8 fail when the world is even
+(fail-then-succeed), everything else succeeds with instance `100·world + args` -/
+def XE : Ext Nat Nat Nat Nat Nat Nat :=
+  { construct := fun w _ _ a =>
+      if a = 7 then (.error w, w + 1)
+      else if a = 8 ∧ w % 2 = 0 then (.error w, w + 1)
+      else (.ok (100 * w + a), w + 1) }
+
+def op (t a x : Nat) : Op Nat Nat Nat Nat Nat := { ty := t, args := a, cb := fun i w => (i + x, w) }
+
+/-- hit, second type with equal args, fail-then-succeed, always-fail, hit after failures of other keys -/
+def hist : List (Op Nat Nat Nat Nat Nat) :=
+  [op 0 1 5, op 0 1 6, op 1 1 0, op 0 8 0, op 0 8 0, op 0 7 0, op 0 1 7]
+
+example : (runOps XE 0 hist LMemo.empty 0).1 = [.ok 6, .ok 7, .ok 101, .err 2, .ok 308, .err 4, .ok 8] := by decide
+example : (okEvents (after XE 0 0 hist) 0 8).length = 1 ∧ (okEvents (after XE 0 0 hist) 0 7).length = 0 ∧
+    (after XE 0 0 hist).log.length = 5 ∧
+    (after XE 0 0 hist).calls = [(0, 1, 1), (0, 8, 308), (1, 1, 101), (0, 1, 1), (0, 1, 1)] := by decide
+
+def obsOid : MObs Nat Nat Nat Nat Nat Nat → Option Nat
+  | .handle _ oid => some oid
+  | _ => none
+
+def constructed : MObs Nat Nat Nat Nat Nat Nat → Bool
+  | .res _ (some _) => true
+  | _ => false
+
+/-- shared while alive (handles 0, 1), other language separate (handle 2), fresh after the last drop
+(handle 3 constructs again) -/
+def mhist : List (MOp Nat Nat Nat Nat Nat Nat) :=
+  [.getForLang 0, .lookup 0 (op 0 1 0), .getForLang 0, .drop 0, .getForLang 1, .lookup 1 (op 0 1 0), .drop 1,
+   .getForLang 0, .lookup 3 (op 0 1 0)]
+
+example : (mrun XE mhist (MState.init 0)).1.map obsOid =
+    [some 0, none, some 0, none, some 1, none, none, some 2, none] := by decide
+example : (mrun XE mhist (MState.init 0)).1.map constructed =
+    [false, true, false, false, false, false, false, false, true] := by decide
+
+/-- the hypotheses of `C14_shared_while_in_use` are satisfiable (pre = [], mid = lookup, other language, drop) -/
+example :
+    let r := mstep XE (mafter XE 0 ([] : List (MOp Nat Nat Nat Nat Nat Nat))) (.getForLang 0)
+    obsOid r.2 = some 0 ∧
+    (mrun XE [.lookup 0 (op 0 1 0), .getForLang 1, .drop 1] r.1).2.handles[0]? = some (some 0) := by decide
+
+/-- the hypotheses of `C14_fresh_after_last_drop` are satisfiable -/
+example :
+    let s := mafter XE 0 (mhist.take 4)
+    s.handles[1]? = some (some 0) ∧ liveCount s.handles 0 = 1 ∧ aget s.table 0 = some 0 := by decide
+
+/-- three threads, simultaneous first lookups of one key, a fail-then-succeed key -/
+def progs : List (List (Op Nat Nat Nat Nat Nat)) := [[op 0 1 1, op 0 8 2], [op 0 1 3, op 0 8 4], [op 0 1 9]]
+
+def sched : List Nat :=
+  [1, 0, 2, 1, 1, 0, 2, 0, 0, 1, 2, 2, 1, 0, 0, 1, 1, 0, 0, 1, 1, 2, 2] ++ roundRobin 3 15
+
+set_option maxRecDepth 8000 in
+example :
+    ((cafter XE 0 0 progs sched).threads 0).results = [.ok 110, .ok 2] ∧
+    ((cafter XE 0 0 progs sched).threads 1).results = [.ok 112, .ok 4] ∧
+    ((cafter XE 0 0 progs sched).threads 2).results = [.ok 10] ∧
+    (cafter XE 0 0 progs sched).acq.map (·.1) = [2, 0, 1, 0, 1] ∧
+    (cafter XE 0 0 progs sched).lock = none ∧
+    (okEvents (cafter XE 0 0 progs sched).memo 0 1).length = 1 := by decide
+
+/-- a reachable state with the lock held and unfinished threads (hypothesis of `C14_deadlock_free`) -/
+example : (cafter XE 0 0 progs [1, 0, 2, 1]).lock = some 1 ∧
+    (List.range 3).map (finishedB (cafter XE 0 0 progs [1, 0, 2, 1])) = [false, false, false] := by decide
+
+end Ex
 
 end FluentProofs.C14
